@@ -292,6 +292,7 @@ def run(ctx):
     ctx.count(len(results))
     stress_cov = []
     race_reported = False
+    seen_kinds = set()      # at most one report per (kind of failure, container)
     for res_ in results:
         out, rc, verdict = res_["out"], res_["rc"], res_["verdict"]
         stress_cov.append({"run": res_["name"], "rc": rc, "harness": out[:160], "model": (verdict or "")[:120]})
@@ -313,11 +314,17 @@ def run(ctx):
                 race_reported = True
             continue
         if rc != 0:
+            if ("crash", res_["args"][0]) in seen_kinds:
+                continue
+            seen_kinds.add(("crash", res_["args"][0]))
             conf.update({"stderr_tail": res_["err"][-3000:], "stdout": out[-500:], "required": "no crash, no sanitizer report"})
             ctx.violation("stress run crashed / sanitizer report (rc=%d): %s" % (rc, " ".join(res_["args"])), conf)
             continue
         fails_ = [l for l in out.splitlines() if l.startswith("FAIL")]
         if fails_:
+            if ("history", res_["args"][0]) in seen_kinds:
+                continue
+            seen_kinds.add(("history", res_["args"][0]))
             conf.update({"observed": fails_, "model_acceptance": verdict, "history": res_["trace"],
                          "required": "every element in exactly one batch, once, in its producer's order; size()/empty() consistent; "
                                      "values seen in assignment order, update()==true iff newer, last value obtained once the producer is idle"})
